@@ -1,12 +1,582 @@
-//! C05 — (stub: no ops yet)
+//! C05 — in-silico digestion and FASTA reading
+//!   digest <opt mc> <opt min_len> <opt max_len> <opt cleave-hex> <opt restrict-byte> <opt c_terminal>
+//!          <opt semi> <seq-hex>
+//!        -> panic | n (seq-hex missed_cleavages position semi)…        (order as produced)
+//!           built through `EnzymeBuilder -> EnzymeParameters` (database.rs), then
+//!           `EnzymeParameters::digest`; position 0 Nterm 1 Cterm 2 Full 3 Internal
+//!   fasta <decoy-tag-hex> <generate_decoys> <text-hex>
+//!        -> panic | n (accession-hex sequence-hex)…                    (file order)
 use super::Info;
-use crate::proto::{Case, Rng, Tier, Toks};
+use crate::proto::{Case, Out, Rng, Tier, Toks};
+use sage_core::database::EnzymeBuilder;
+use sage_core::enzyme::{EnzymeParameters, Position};
+use sage_core::fasta::Fasta;
+use std::sync::Arc;
 
-pub const OPS: &[&str] = &[];
-pub const INFO: Info = Info { rule: "", serial: false };
+pub const OPS: &[&str] = &["digest", "fasta"];
+pub const INFO: Info = Info {
+    rule: "digest: (a) exhaustive: every sequence up to length L (quick 4, thorough 5) crossed with all \
+           settings below; thorough also every sequence of length 6 with 12 and of length 7-8 with 2 random \
+           settings each (quick: 4000 random sequences of length 5-8 with one random setting) over {K,R,P,A,D} x 9 enzyme shapes (+ builder defaults) (KR; K; KR \
+           restrict P; K restrict K; D N-terminal; D N-terminal restrict D; DK N-terminal restrict K; '$' \
+           with contradictory flags; '' non-specific; KR restrict P with defaults) x missed cleavages 0..2 x \
+           semi x length bounds {1..50, 2..4, 3..3, 0..2, 5..3}; (b) directed: empty/one-residue proteins, \
+           cleavage residue at either terminus, runs KK/KP/PK, repeated peptides with different labels, a \
+           peptide that is fully enzymatic at one place and semi-enzymatic at another, non-specific windows \
+           longer than the protein, min_len 0, min>max, unset builder fields (defaults), invalid cleavage / \
+           restriction characters (assert -> panic on both sides); (c) random (quick 1500, thorough 6000): proteins of length 10..60 \
+           (thorough ..120) over the 22 residues with K/R/P/D enriched, random cleavage sets of 1-4 residues, \
+           random restriction (often a member of the set or P), either terminus, semi, mc 0..3, random \
+           bounds. Non-trivial = the protein has >= 2 residues and (non-specific or it contains a residue of \
+           the cleavage set). missed_cleavages stays < 255 (u8 overflow in `1 + mc`), ASCII only. \
+           fasta: records (accession, optional description, sequence) rendered in a random layout: line \
+           width in {1,2,3,7,60,none}, LF or CRLF per line, blank / white-space-only lines anywhere \
+           (also before the first header), leading/trailing spaces and tabs, '> acc', decoy tag as \
+           prefix / infix / only in the description / absent, empty tag, generate flag, with and without \
+           final newline, lone trailing CR, records without sequence, bare '>' headers without sequence, \
+           VT characters, duplicate accessions. Inputs on which Fasta::parse panics (a bare '>' header that \
+           is followed by sequence, or sequence text before the first header) are outside the statement \
+           and are NOT generated. Non-trivial = at least 2 records with sequence.",
+    serial: false,
+};
 
-pub fn gen(_rng: &mut Rng, _tier: Tier, _emit: &mut dyn FnMut(Case)) {}
+// ------------------------------------------------------------------------------------------ digest
 
-pub fn exec(_op: &str, _t: &mut Toks) -> Option<String> {
-    None
+#[derive(Clone, Default)]
+struct B {
+    mc: Option<u8>,
+    min_len: Option<usize>,
+    max_len: Option<usize>,
+    cleave: Option<Vec<u8>>,
+    restrict: Option<u8>,
+    c_terminal: Option<bool>,
+    semi: Option<bool>,
+}
+
+fn digest_request(b: &B, seq: &[u8]) -> String {
+    let mut o = Out::new();
+    o.raw("digest");
+    match b.mc {
+        None => o.n(0),
+        Some(x) => o.n(1).n(x),
+    };
+    match b.min_len {
+        None => o.n(0),
+        Some(x) => o.n(1).n(x),
+    };
+    match b.max_len {
+        None => o.n(0),
+        Some(x) => o.n(1).n(x),
+    };
+    match &b.cleave {
+        None => o.n(0),
+        Some(x) => o.n(1).bytes(x),
+    };
+    match b.restrict {
+        None => o.n(0),
+        Some(x) => o.n(1).n(x),
+    };
+    match b.c_terminal {
+        None => o.n(0),
+        Some(x) => o.n(1).b(x),
+    };
+    match b.semi {
+        None => o.n(0),
+        Some(x) => o.n(1).b(x),
+    };
+    o.bytes(seq);
+    o.finish()
+}
+
+fn shape(cleave: &str, restrict: Option<u8>, cterm: bool) -> B {
+    B {
+        mc: Some(0),
+        min_len: Some(1),
+        max_len: Some(50),
+        cleave: Some(cleave.as_bytes().to_vec()),
+        restrict,
+        c_terminal: Some(cterm),
+        semi: Some(false),
+    }
+}
+
+fn shapes() -> Vec<(&'static str, B)> {
+    vec![
+        ("shape:KR", shape("KR", None, true)),
+        ("shape:K", shape("K", None, true)),
+        ("shape:KR!P", shape("KR", Some(b'P'), true)),
+        ("shape:K!K", shape("K", Some(b'K'), true)),
+        ("shape:nD", shape("D", None, false)),
+        ("shape:nD!D", shape("D", Some(b'D'), false)),
+        ("shape:nDK!K", shape("DK", Some(b'K'), false)),
+        ("shape:$", shape("$", Some(b'P'), false)),
+        ("shape:nonspecific", shape("", None, true)),
+    ]
+}
+
+const BOUNDS: &[(usize, usize)] = &[(1, 50), (2, 4), (3, 3), (0, 2), (5, 3)];
+
+fn nontrivial_digest(b: &B, seq: &[u8]) -> bool {
+    let cl = b.cleave.clone().unwrap_or_else(|| b"KR".to_vec());
+    seq.len() >= 2 && (cl.is_empty() || seq.iter().any(|c| cl.contains(c)))
+}
+
+fn emit_digest(emit: &mut dyn FnMut(Case), b: &B, seq: &[u8], tags: &[&'static str]) {
+    let mut c = Case::new(digest_request(b, seq)).nontrivial(nontrivial_digest(b, seq));
+    for t in tags {
+        c = c.tag(t);
+    }
+    c = c
+        .tag_if(b.semi == Some(true), "semi")
+        .tag_if(b.mc.unwrap_or(1) > 0, "mc>0")
+        .tag_if(b.c_terminal == Some(false), "n-terminal")
+        .tag_if(b.restrict.is_some(), "restricted")
+        .tag_if(seq.is_empty(), "empty-protein");
+    emit(c);
+}
+
+fn all_settings(emit: &mut dyn FnMut(Case), seq: &[u8], tag: &'static str) {
+    for (name, sh) in shapes() {
+        for mc in 0..=2u8 {
+            for semi in [false, true] {
+                for &(lo, hi) in BOUNDS {
+                    let mut b = sh.clone();
+                    b.mc = Some(mc);
+                    b.semi = Some(semi);
+                    b.min_len = Some(lo);
+                    b.max_len = Some(hi);
+                    emit_digest(emit, &b, seq, &[tag, name]);
+                }
+            }
+        }
+    }
+    // the defaults of EnzymeBuilder -> EnzymeParameters (mc 1, 5..=50, "KR", C-terminal, not semi)
+    let b = B { restrict: Some(b'P'), ..B::default() };
+    emit_digest(emit, &b, seq, &[tag, "shape:defaults"]);
+}
+
+fn random_setting(rng: &mut Rng) -> (&'static str, B) {
+    let sh = shapes();
+    let (name, mut b) = sh[rng.below(sh.len())].clone();
+    b.mc = Some(rng.below(3) as u8);
+    b.semi = Some(rng.chance(1, 2));
+    let (lo, hi) = BOUNDS[rng.below(BOUNDS.len())];
+    b.min_len = Some(lo);
+    b.max_len = Some(hi);
+    (name, b)
+}
+
+const SMALL: &[u8] = b"KRPAD";
+const AA22: &[u8] = b"ACDEFGHIKLMNPQRSTVWYUO";
+
+fn nth_seq(len: usize, mut idx: usize) -> Vec<u8> {
+    let mut v = Vec::with_capacity(len);
+    for _ in 0..len {
+        v.push(SMALL[idx % SMALL.len()]);
+        idx /= SMALL.len();
+    }
+    v
+}
+
+fn gen_digest(rng: &mut Rng, tier: Tier, emit: &mut dyn FnMut(Case)) {
+    // (a) exhaustive
+    let full = if tier == Tier::Quick { 4 } else { 5 };
+    for len in 0..=full {
+        for idx in 0..SMALL.len().pow(len as u32) {
+            all_settings(emit, &nth_seq(len, idx), "exhaustive");
+        }
+    }
+    if tier == Tier::Thorough {
+        for len in 6..=8 {
+            for idx in 0..SMALL.len().pow(len as u32) {
+                let s = nth_seq(len, idx);
+                let reps = if len == 6 { 12 } else { 2 };
+                for _ in 0..reps {
+                    let (name, b) = random_setting(rng);
+                    emit_digest(emit, &b, &s, &["exhaustive-seq-random-setting", name]);
+                }
+            }
+        }
+    } else {
+        for _ in 0..4000 {
+            let len = 5 + rng.below(4);
+            let s: Vec<u8> = (0..len).map(|_| *rng.pick(SMALL)).collect();
+            let (name, b) = random_setting(rng);
+            emit_digest(emit, &b, &s, &["random-small", name]);
+        }
+    }
+
+    // (b) directed
+    let directed: &[&str] = &[
+        "", "K", "A", "D", "KK", "KP", "PK", "KA", "AK", "DA", "AD", "DD",
+        "AKAKAK", "AKAKAKA", "KAKAKA", "AAKAAKAAK", "AAKAAKAAKP", "AKPAKAK", "KPKPKP", "AKKKA", "KKKK",
+        "DADADA", "ADADAD", "DDAD", "ADKDKA", "KDKD",
+        // "AR" is fully enzymatic at 3..5 and only semi-enzymatic inside "ARA" at the end (and v.v.)
+        "AAKARARA", "ARAKAR", "GGGGKCCCCC", "GGGGGCCCCC", "CCCKCCC", "AAKAAPKAAK", "MADEEKLPPGWEKRMSRSSGRVYYFNHITNASQWERPSGN",
+    ];
+    for s in directed {
+        all_settings(emit, s.as_bytes(), "directed");
+    }
+    // non-specific windows longer than the protein, min 0, min > max
+    for &(lo, hi) in &[(3usize, 9usize), (0, 9), (6, 7), (9, 3), (0, 0), (1, 1), (5, 5)] {
+        for s in ["", "A", "AKAKA", "KRPAD", "AAAAA", "AKAAKA"] {
+            let mut b = shape("", None, true);
+            b.min_len = Some(lo);
+            b.max_len = Some(hi);
+            b.mc = Some(2);
+            b.semi = Some(true);
+            emit_digest(emit, &b, s.as_bytes(), &["directed", "nonspecific-bounds"]);
+        }
+    }
+    // unset builder fields
+    for s in ["AAAAAKAAAAAAKPAAAAAARAAAAA", "MADEEKLPPGWEKRMSRSSGRVYYFNHITNASQWERPSGN", "KAAAAAK"] {
+        for mask in 0..128u32 {
+            let full = B {
+                mc: Some(2),
+                min_len: Some(2),
+                max_len: Some(12),
+                cleave: Some(b"R".to_vec()),
+                restrict: Some(b'A'),
+                c_terminal: Some(false),
+                semi: Some(true),
+            };
+            let b = B {
+                mc: if mask & 1 != 0 { None } else { full.mc },
+                min_len: if mask & 2 != 0 { None } else { full.min_len },
+                max_len: if mask & 4 != 0 { None } else { full.max_len },
+                cleave: if mask & 8 != 0 { None } else { full.cleave.clone() },
+                restrict: if mask & 16 != 0 { None } else { full.restrict },
+                c_terminal: if mask & 32 != 0 { None } else { full.c_terminal },
+                semi: if mask & 64 != 0 { None } else { full.semi },
+            };
+            emit_digest(emit, &b, s.as_bytes(), &["directed", "defaults"]);
+        }
+    }
+    // asserts of Enzyme::new
+    for (cl, rs) in [
+        ("KX", None), ("B", None), ("$K", None), ("K$", None), ("k", None), ("K R", None), ("J", None), ("Z", None),
+        ("KR", Some(b'X')), ("KR", Some(b'p')), ("", Some(b'X')), ("$", Some(b'B')), ("$", Some(b'$')),
+        ("UO", Some(b'U')), ("KRUO", Some(b'O')),
+    ] {
+        let b = shape(cl, rs, true);
+        emit(Case::new(digest_request(&b, b"AKAUOKAXAK")).tag("directed").tag("enzyme-new-assert").nontrivial(false));
+    }
+    // large missed-cleavage counts (u8, below the overflow at 255)
+    for mc in [3u8, 7, 100, 254] {
+        let mut b = shape("KR", Some(b'P'), true);
+        b.mc = Some(mc);
+        b.semi = Some(mc == 7);
+        emit_digest(emit, &b, b"AKAAKAAAKPAAAARAAAAAKKAR", &["directed", "large-mc"]);
+    }
+
+    // (c) random long
+    let (n, maxlen) = if tier == Tier::Quick { (1500, 60) } else { (6000, 120) };
+    for _ in 0..n {
+        let len = 10 + rng.below(maxlen - 9);
+        let seq: Vec<u8> = (0..len)
+            .map(|_| if rng.chance(35, 100) { *rng.pick(b"KRPD") } else { *rng.pick(AA22) })
+            .collect();
+        let nonspecific = rng.chance(1, 8);
+        let mut b = B::default();
+        if nonspecific {
+            let seq = &seq[..len.min(40)];
+            let lo = rng.below(8);
+            b.min_len = Some(lo);
+            b.max_len = Some(lo + rng.below(6));
+            b.cleave = Some(vec![]);
+            b.mc = Some(rng.below(3) as u8);
+            b.semi = Some(rng.chance(1, 2));
+            emit_digest(emit, &b, seq, &["random-long", "shape:nonspecific"]);
+            continue;
+        }
+        let k = 1 + rng.below(4);
+        let cl: Vec<u8> = (0..k)
+            .map(|_| if rng.chance(1, 2) { *rng.pick(b"KRD") } else { *rng.pick(AA22) })
+            .collect();
+        b.restrict = match rng.below(4) {
+            0 => None,
+            1 => Some(b'P'),
+            2 => Some(*rng.pick(&cl)),
+            _ => Some(*rng.pick(AA22)),
+        };
+        b.cleave = Some(cl);
+        b.c_terminal = Some(rng.chance(1, 2));
+        let semi = rng.chance(1, 3);
+        b.semi = Some(semi);
+        b.mc = Some(rng.below(4) as u8);
+        let lo = rng.below(8);
+        b.min_len = Some(lo);
+        b.max_len = Some(lo + rng.below(31));
+        // semi-enzymatic digestion multiplies the spec's work: keep those proteins shorter
+        let seq = if semi { &seq[..len.min(45)] } else { &seq[..] };
+        emit_digest(emit, &b, seq, &["random-long", "shape:random"]);
+    }
+}
+
+// ------------------------------------------------------------------------------------------- fasta
+
+fn fasta_request(tag: &[u8], generate: bool, text: &[u8]) -> String {
+    let mut o = Out::new();
+    o.raw("fasta").bytes(tag).b(generate).bytes(text);
+    o.finish()
+}
+
+struct Rec {
+    acc: Vec<u8>,
+    desc: Option<Vec<u8>>,
+    seq: Vec<u8>,
+    bare: bool, // bare '>' header: only legal without sequence
+}
+
+fn ws(rng: &mut Rng, max: usize) -> Vec<u8> {
+    (0..rng.below(max + 1)).map(|_| *rng.pick(b"  \t")).collect()
+}
+
+fn eol(rng: &mut Rng, crlf: u8) -> &'static [u8] {
+    match crlf {
+        0 => b"\n",
+        1 => b"\r\n",
+        _ => {
+            if rng.chance(1, 2) {
+                b"\n"
+            } else {
+                b"\r\n"
+            }
+        }
+    }
+}
+
+fn blank(rng: &mut Rng, out: &mut Vec<u8>, crlf: u8, freq: u32) {
+    while rng.chance(freq, 100) {
+        if rng.chance(1, 2) {
+            out.extend(ws(rng, 3));
+        }
+        if rng.chance(1, 12) {
+            out.push(0x0b);
+        }
+        out.extend_from_slice(eol(rng, crlf));
+    }
+}
+
+fn render(rng: &mut Rng, recs: &[Rec], width: usize, crlf: u8, blanks: u32, pad: bool, final_eol: u8) -> Vec<u8> {
+    let mut out = Vec::new();
+    blank(rng, &mut out, crlf, blanks);
+    for r in recs {
+        if pad {
+            out.extend(ws(rng, 2));
+        }
+        out.push(b'>');
+        if !r.bare {
+            if pad && rng.chance(1, 3) {
+                out.extend(ws(rng, 2));
+            }
+            out.extend_from_slice(&r.acc);
+            if let Some(d) = &r.desc {
+                out.push(*rng.pick(b" \t"));
+                out.extend_from_slice(d);
+            }
+        }
+        if pad {
+            out.extend(ws(rng, 2));
+        }
+        out.extend_from_slice(eol(rng, crlf));
+        blank(rng, &mut out, crlf, blanks);
+        let w = if width == 0 { r.seq.len().max(1) } else { width };
+        for chunk in r.seq.chunks(w) {
+            if pad {
+                out.extend(ws(rng, 2));
+            }
+            out.extend_from_slice(chunk);
+            if pad {
+                out.extend(ws(rng, 2));
+            }
+            out.extend_from_slice(eol(rng, crlf));
+            blank(rng, &mut out, crlf, blanks);
+        }
+    }
+    match final_eol {
+        // strip the final line terminator
+        1 => {
+            while matches!(out.last(), Some(b'\n') | Some(b'\r')) {
+                out.pop();
+            }
+        }
+        // lone CR at the very end
+        2 => {
+            while matches!(out.last(), Some(b'\n') | Some(b'\r')) {
+                out.pop();
+            }
+            out.push(b'\r');
+        }
+        _ => {}
+    }
+    out
+}
+
+fn gen_fasta(rng: &mut Rng, tier: Tier, emit: &mut dyn FnMut(Case)) {
+    // directed texts (none of them panics)
+    let directed: &[(&str, &str, bool)] = &[
+        ("", "rev_", true),
+        ("\n\n", "rev_", true),
+        (">P1\nAAAK\n", "rev_", true),
+        (">P1\nAAAK", "rev_", true),
+        (">P1 desc here\nAAAK\nCCCK\n>P2\tother\nDDDK\n", "rev_", true),
+        (">P1\r\nAAAK\r\nCCCK\r\n>rev_P1\r\nKAAA\r\n", "rev_", true),
+        (">P1\r\nAAAK\r\nCCCK\r\n>rev_P1\r\nKAAA\r\n", "rev_", false),
+        (">sp|rev_|x\nAAAK\n>P2 rev_\nCCCK\n", "rev_", true),
+        (">P1\nAAAK\n>P2\nCCCK\n", "", true),
+        (">P1\nAAAK\n>P2\nCCCK\n", "", false),
+        (">P1\n>P2\nCCCK\n>P3\n", "rev_", true),
+        (">\n>P2\nCCCK\n", "rev_", true),
+        (">   \n\n>P2\nCCCK\n>", "rev_", true),
+        ("  \n\t\n>P1\n  AA AK  \n\n  CCCK\t\n", "rev_", true),
+        ("> P1 d\nA\nA\nA\nK\n", "rev_", true),
+        (">P1\nAAAK\r", "rev_", true),
+        (">P1\nAAAK\r\r\n", "rev_", true),
+        (">P1\nAA\rAK\n", "rev_", true),
+        (">P1\x0bX d\nAAAK\n", "rev_", true),
+        (">P1\n>AAAK\nCC\n", "rev_", true),
+        (">P1\nAA>AK\n", "rev_", true),
+        (">P1\nAAAK\n>P1\nAAAK\n", "rev_", true),
+        (">rev_\nAAAK\n>re\nCCK\n>v_\nDDK\n", "rev_", true),
+    ];
+    for (text, tag, g) in directed {
+        let n = text.matches('>').count();
+        emit(Case::new(fasta_request(tag.as_bytes(), *g, text.as_bytes())).tag("fasta-directed").nontrivial(n >= 2));
+    }
+    let n = if tier == Tier::Quick { 2500 } else { 30000 };
+    for _ in 0..n {
+        let tag: &[u8] = *rng.pick(&[&b"rev_"[..], b"rev_", b"DECOY_", b"", b"X"]);
+        let generate = rng.chance(1, 2);
+        let nrec = rng.below(7);
+        let mut recs = Vec::new();
+        for i in 0..nrec {
+            let base: Vec<u8> = if rng.chance(1, 6) && i > 0 {
+                b"P0".to_vec()
+            } else {
+                let l = 1 + rng.below(6);
+                (0..l).map(|_| *rng.pick(b"PQsp|012_X.>")).collect()
+            };
+            let acc: Vec<u8> = match rng.below(6) {
+                0 => [tag, &base[..]].concat(),
+                1 => [&base[..], tag, b"z"].concat(),
+                2 => [&base[..], tag].concat(),
+                _ => base,
+            };
+            let acc = if acc.is_empty() { b"Q".to_vec() } else { acc };
+            let desc = if rng.chance(1, 2) {
+                let l = rng.below(12);
+                let mut d: Vec<u8> = (0..l).map(|_| *rng.pick(b"ab OS=\t>x")).collect();
+                if rng.chance(1, 4) {
+                    d.extend_from_slice(tag);
+                }
+                Some(d)
+            } else {
+                None
+            };
+            let bare = rng.chance(1, 25);
+            let seq: Vec<u8> = if bare || rng.chance(1, 10) {
+                vec![]
+            } else {
+                let cap = if rng.chance(1, 5) { 200 } else { 30 };
+                let l = 1 + rng.below(cap);
+                (0..l).map(|_| *rng.pick(AA22)).collect()
+            };
+            recs.push(Rec { acc, desc, seq, bare });
+        }
+        let width = *rng.pick(&[0usize, 1, 2, 3, 7, 60]);
+        let crlf = rng.below(3) as u8;
+        let blanks = *rng.pick(&[0u32, 0, 15, 40]);
+        let pad = rng.chance(1, 2);
+        let final_eol = rng.below(3) as u8;
+        let text = render(rng, &recs, width, crlf, blanks, pad, final_eol);
+        let with_seq = recs.iter().filter(|r| !r.seq.is_empty()).count();
+        emit(Case::new(fasta_request(tag, generate, &text))
+            .tag("fasta-random")
+            .tag_if(crlf > 0, "crlf")
+            .tag_if(blanks > 0, "blank-lines")
+            .tag_if(pad, "padded")
+            .tag_if(width > 0 && width < 60, "wrapped")
+            .tag_if(tag.is_empty(), "empty-tag")
+            .tag_if(final_eol > 0, "no-final-newline")
+            .nontrivial(with_seq >= 2));
+    }
+}
+
+pub fn gen(rng: &mut Rng, tier: Tier, emit: &mut dyn FnMut(Case)) {
+    gen_digest(rng, tier, emit);
+    gen_fasta(rng, tier, emit);
+}
+
+// -------------------------------------------------------------------------------------------- exec
+
+fn opt<T>(t: &mut Toks, f: impl FnOnce(&mut Toks) -> Option<T>) -> Option<Option<T>> {
+    if t.usize()? == 0 {
+        Some(None)
+    } else {
+        Some(Some(f(t)?))
+    }
+}
+
+pub fn exec(op: &str, t: &mut Toks) -> Option<String> {
+    match op {
+        "digest" => {
+            let mc = opt(t, |t| t.usize())?;
+            let min_len = opt(t, |t| t.usize())?;
+            let max_len = opt(t, |t| t.usize())?;
+            let cleave = opt(t, |t| t.string())?;
+            let restrict = opt(t, |t| t.usize())?;
+            let c_terminal = opt(t, |t| t.bool())?;
+            let semi = opt(t, |t| t.bool())?;
+            let seq = t.string()?;
+            if !t.done() || !seq.is_ascii() {
+                return None;
+            }
+            let builder = EnzymeBuilder {
+                missed_cleavages: match mc {
+                    Some(x) => Some(u8::try_from(x).ok()?),
+                    None => None,
+                },
+                min_len,
+                max_len,
+                cleave_at: cleave,
+                restrict: match restrict {
+                    Some(x) => Some(u8::try_from(x).ok().filter(|b| b.is_ascii())? as char),
+                    None => None,
+                },
+                c_terminal,
+                semi_enzymatic: semi,
+            };
+            let params: EnzymeParameters = builder.into();
+            let digests = params.digest(&seq, Arc::from("P"));
+            let mut o = Out::new();
+            o.n(digests.len());
+            for d in &digests {
+                o.s(&d.sequence).n(d.missed_cleavages).n(match d.position {
+                    Position::Nterm => 0,
+                    Position::Cterm => 1,
+                    Position::Full => 2,
+                    Position::Internal => 3,
+                });
+                o.b(d.semi_enzymatic);
+            }
+            Some(o.finish())
+        }
+        "fasta" => {
+            let tag = t.string()?;
+            let generate = t.bool()?;
+            let text = t.string()?;
+            if !t.done() || !text.is_ascii() || !tag.is_ascii() {
+                return None;
+            }
+            let fasta = Fasta::parse(text, tag, generate);
+            let mut o = Out::new();
+            o.n(fasta.targets.len());
+            for (acc, seq) in &fasta.targets {
+                o.s(acc).s(seq);
+            }
+            Some(o.finish())
+        }
+        _ => None,
+    }
 }
